@@ -170,6 +170,23 @@ def build_ops(ck, tmp, n):
     ops.append({"kind": "cache_env", "input": pe, "eb": 16, "dep": "dep_.*", "omit": None})
     ops.append({"kind": "cache_env", "input": pe, "eb": 8, "dep": None, "omit": "#m.*"})
     ops.append({"kind": "cache_env", "input": pe, "eb": 16, "dep": "nothing", "omit": "nothing"})
+    # an envelope WITH integrated dependencies, parsed in all four output forms (flat / hierarchical x yaml / json): the
+    # hierarchical YAML form uses anchors and aliases, which depend on dumper state
+    child = {"SUIT_Envelope_Tagged": {
+        "suit-authentication-wrapper": {"SuitDigest": {"suit-digest-algorithm-id": "cose-alg-sha-256"}},
+        "suit-manifest": {"suit-manifest-version": 1, "suit-manifest-sequence-number": 7, "suit-common": {"suit-components": [["C", 1]]}}}}
+    parent = {"SUIT_Envelope_Tagged": {
+        "suit-authentication-wrapper": {"SuitDigest": {"suit-digest-algorithm-id": "cose-alg-sha-512"}},
+        "suit-manifest": {"suit-manifest-version": 1, "suit-manifest-sequence-number": 8, "suit-common": {"suit-components": [["P", 2]]}},
+        "suit-integrated-dependencies": {"#child_a": json.loads(json.dumps(child)), "#child_b": json.loads(json.dumps(child))}}}
+    rp = interp.run_impl(interp.impl_create, parent)
+    if rp[0] == "ok":
+        pp = os.path.join(tmp, "parent_with_deps.suit")
+        with open(pp, "wb") as fh:
+            fh.write(rp[1])
+        for fmt in ("yaml", "json"):
+            for hier in (False, True):
+                ops.append({"kind": "parse", "input": pp, "fmt": fmt, "hier": hier, "forms": True})
     # a storage image from a root envelope with the default class
     root = {"SUIT_Envelope_Tagged": {
         "suit-authentication-wrapper": {"SuitDigest": {"suit-digest-algorithm-id": "cose-alg-sha-256"}},
@@ -227,6 +244,9 @@ def run(tier, seed):
             order = [ck.rng.randrange(n) for _ in range(ck.rng.choice([4, 6, 8]))]
             if h == 1:
                 order = designed + designed[::-1]
+            if h == 2:
+                forms = [i for i, op in enumerate(ops) if op.get("forms")]
+                order = forms + forms[::-1] + forms[:2]      # flat before hierarchical, hierarchical before flat, yaml and json interleaved
             if h % 3 == 0:
                 order = ck.rng.sample(range(n), min(n, 6))
                 order = order + order[:2]                      # an operation repeated after others ran
